@@ -71,6 +71,12 @@ pub fn draw_foreign(rng: &mut Rng, big: bool) -> ForeignSpec {
             contents.push(c);
         }
     }
+    // another writer need not deduplicate: the same bytes may be stored at several offsets
+    if rng.chance(25) {
+        for i in 0..contents.len().min(4) {
+            contents.push(contents[i]);
+        }
+    }
     let mut entries = Vec::new();
     let maxid = spec::max_valid_id();
     let mut id: u64 = match rng.below(4) {
